@@ -444,6 +444,64 @@ def selfcheck_classes(s: str) -> bool:
             and bool(at_most(s, "<", 1)) == py_at_most(s, "<", 1))
 
 
+# ---------------------------------------------------------------- 7. one tag row of the TSV form (no file in between)
+class _Row(dict):
+    """a table row as the TSV reader sees it: item access by column name plus `.index` (the column names)"""
+    @property
+    def index(self):
+        return list(self.keys())
+
+
+def _tsv_setup():
+    if not _TSV:
+        from vp.mini import MINI
+        from hed.schema.schema_io.df2schema import SchemaLoaderDF
+        r = SchemaLoaderDF.__new__(SchemaLoaderDF)
+        r._schema = _SCHEMA
+        r.fatal_errors = []
+        r.name = "c05"
+        r.appending_to_schema = False
+        r._loading_merged = True
+        _TSV.append((MINI, r))
+    return _TSV[0]
+
+
+_TSV = []
+
+
+def tsv_row_roundtrip(desc: str, v: str) -> bool:
+    """
+    pre: len(desc) <= R.N(3) and _desc_text(desc)
+    pre: 1 <= len(v) <= R.M(2) and _value_text(v)
+    pre: R.env_int("VP_DL") is None or len(desc) == R.env_int("VP_DL")
+    post: _
+    """
+    # Schema2DF builds the row of a tag as a plain mapping column -> text; SchemaLoaderDF._create_entry reads such a
+    # row back.  The description and the attribute values must come back exactly as they were (the file written
+    # and read in between by pandas is outside this claim).
+    import copy
+    from hed.schema import hed_schema_df_constants as constants
+    mini, reader = _tsv_setup()
+    desc, v = fixed(desc), fixed(v)
+    entry = copy.copy(mini.tags["A/B"])
+    entry.attributes = {HedKey.SuggestedTag: v, HedKey.ExtensionAllowed: True}
+    entry.description = desc
+    w = Schema2DF()
+    w._schema = mini
+    w._initialize_output()
+    w._strip_out_in_library = False
+    w._write_tag_entry(entry, level=1)
+    row = _Row(w._tag_rows[-1])
+    if row[constants.description] != desc:
+        return False                                   # the cell holds the description as it is
+    back = reader._create_entry(0, row, HedSectionKey.Tags, full_tag_name="A/B")
+    if reader.fatal_errors:
+        return False
+    if (back.description or "") != desc:
+        return False
+    return HedSchemaEntry._compare_attributes_no_order(entry.attributes, back.attributes)
+
+
 # ---------------------------------------------------------------- registry
 _OUTSIDE = ("XML (ElementTree is a C extension: symbolic text is realised at the first SubElement), TSV files "
             "(pandas), whole-schema equality, cross-format agreement, independent XML reading, partnered "
@@ -558,6 +616,23 @@ _STUB_ENTRY = ("entries are made by the real HedSchema._create_tag_entry on an e
                "the loader object is created with __new__ (no file is opened)")
 
 HARNESSES = [
+    R.H("tsv_row_roundtrip",
+        ["hed.schema.schema_io.schema2df.Schema2DF._write_tag_entry",
+         "hed.schema.schema_io.schema2df.Schema2DF._get_tag_equivalent_to",
+         "hed.schema.schema_io.df2schema.SchemaLoaderDF._create_entry",
+         "hed.schema.schema_io.df2schema.SchemaLoaderDF._get_tag_attributes",
+         "hed.schema.schema_io.df_util.get_attributes_from_row"],
+        quick=R.tier(cells=R.int_cells("VP_DL", 0, 3), env={"VP_N": 3, "VP_M": 1}, timeout=300,
+                     bound="a tag row with any description of <= 3 characters over the schema text class (+ comma) and "
+                           "a suggestedTag value of 1 character over the name class"),
+        thorough=R.tier(cells=R.int_cells("VP_DL", 0, 5), env={"VP_N": 5, "VP_M": 2}, timeout=1800, path_timeout=60,
+                        bound="description <= 5, value <= 2"),
+        what="the row mapping Schema2DF builds for a tag, read back by SchemaLoaderDF._create_entry, gives the same "
+             "description and attributes",
+        oracle="the original entry (library's own attribute comparison)",
+        stubs=["row stub: dict with `.index` (what get_attributes_from_row reads from a pandas row)",
+               "real tag entry of the mini schema, shallow-copied with its own attributes/description"],
+        outside="the .tsv files written and read by pandas between the two halves; other sections' rows"),
     R.H("attr_roundtrip", _ATTR_T,
         quick=R.tier(cells=_attr_cells(0), timeout=400, path_timeout=60,
                      bound="1-2 attributes (boolean / valued / inLibrary, both writer settings, MediaWiki and TSV "
